@@ -18,13 +18,12 @@ from . import lib_mol, lib_ast, lib_embeds as EM, lib_molgen_c08 as MG, lib_rule
 
 PROPS = ['PGA.Props.C16']
 GEN = ['Chars', 'MolQuery']
-OBLIGATIONS_PLANNED = ['PGA.C16.' + t for t in [
+OBLIGATIONS = ['PGA.C16.' + t for t in [
     'C16_atoms_conserved', 'C16_components_partition', 'C16_elements_conserved',
     'C16_edit_exact', 'C16_frame_atoms', 'C16_frame_bonds', 'C16_bond_edits_leave_atoms', 'C16_atom_edits_leave_bonds',
     'C16_edit_balance', 'C16_balance', 'C16_unbalanced_rejected', 'C16_read_edits_in_range',
     'C16_one_product_set_per_match', 'C16_product_sets_eq_embeddings_partial', 'C16_matches_injective',
     'C16_wf_preserved', 'C16_static_balance_unsound_without_checks', 'C16_ethane_scission']]
-OBLIGATIONS = ['PGA.C16.C16_one_product_set_per_match']
 RULE = ('cases = (rule, molecule) pairs. Rules: ~110 designed unimolecular rules (the docstring C-H scission, homolytic '
         'scissions, bond-order changes, recombination / ring closure, H shift, beta scission, radical / charge / radical-set '
         'edits, every edit kind in a balanced rule, rules editing one bond or atom several times, rules whose edits cannot be '
